@@ -6,6 +6,7 @@ import (
 	"go/build"
 	"go/token"
 	"os"
+	"sync"
 
 	"github.com/go-critic/go-critic/checkers/rulesdata"
 	"github.com/go-critic/go-critic/linter"
@@ -15,7 +16,21 @@ import (
 
 //go:generate go run ./rules/precompile.go -rules ./rules/rules.go -o ./rulesdata/rulesdata.go
 
+var (
+	embeddedRulesOnce sync.Once
+	embeddedRulesErr  error
+)
+
+// InitEmbeddedRules registers a checker for every embedded ruleguard rules group.
+// It is safe to call it more than once: only the first call registers the checkers.
 func InitEmbeddedRules() error {
+	embeddedRulesOnce.Do(func() {
+		embeddedRulesErr = initEmbeddedRules()
+	})
+	return embeddedRulesErr
+}
+
+func initEmbeddedRules() error {
 	filename := "rules/rules.go"
 
 	fset := token.NewFileSet()
